@@ -174,9 +174,16 @@ def crossed(case, ilog):
     return case["start"] != 0 and (case["boundary"] - case["start"]) % M64 <= n and n > 0
 
 
-def run_wrap(ctx):
-    res = vcheck.coq_build(["Properties/Properties_C07_Wrap.v"])
-    ctx.coq_evidence(res)
+class _Ok:
+    ok = True
+
+
+def run_wrap(ctx, build_coq=True):
+    if build_coq:
+        res = vcheck.coq_build(["Properties/Properties_C07_Wrap.v"])
+        ctx.coq_evidence(res)
+    else:
+        res = _Ok()          # Properties_C07_Wrap.v is a companion file: checks/C07.py has built it with its own obligations
     model = conc_check.build_model(ctx, "Extract_VyukovWrap.v", tag="model_wrap")
     impl = vcheck.cxx_build(os.path.join(vcheck.VERIF, "harness/C07/wrap_main.cpp"), os.path.join(ctx.work, "harness_wrap"),
                             hook=True, link_cds=False)
